@@ -106,13 +106,17 @@ def request_headers(case):
 def response_headers(case):
     body_len = sum(len(bytes.fromhex(c)) for c in case["chunks"])
     hl = [(case.get("ctname") or "Content-Type", "text/plain; charset=UTF-8")]
-    if case.get("clen", True):
+    if case.get("clraw") is not None:
+        hl.append((case.get("clname") or "Content-Length", case["clraw"]))
+    elif case.get("clen", True):
         hl.append((case.get("clname") or "Content-Length", str(body_len)))
     for k, v in case.get("extra") or []:
         hl.append((k, v))
     if case.get("etag") is not None:
         hl.append(("ETag", etag_header(case["etag"])))
-    if case.get("lm") is not None:
+    if case.get("lmraw") is not None:
+        hl.append(("Last-Modified", case["lmraw"]))
+    elif case.get("lm") is not None:
         hl.append(("Last-Modified", http_date(case["lm"])))
     if case.get("cr") is not None:
         hl.append(("Content-Range", case["cr"]))
@@ -149,6 +153,22 @@ class _ReIter:
         return iter(self.chunks)
 
 
+class _Custom:
+    """An app_iter with its own app_iter_range: honours it (one chunk) or declines (returns None)."""
+
+    def __init__(self, chunks, honour):
+        self.chunks, self.honour = tuple(chunks), honour
+
+    def __iter__(self):
+        return iter(self.chunks)
+
+    def app_iter_range(self, start, stop):
+        return [b"".join(self.chunks)[start:stop]] if self.honour else None
+
+
+STD_REASON = {200: "200 OK", 201: "201 Created", 206: "206 Partial Content", 404: "404 Not Found"}
+
+
 def make_app_iter(case):
     chunks = [bytes.fromhex(c) for c in case["chunks"]]
     kind = case.get("iter", "list")
@@ -158,6 +178,12 @@ def make_app_iter(case):
         return (c for c in chunks)
     if kind == "reiter":
         return _ReIter(chunks)
+    if kind == "tuple":
+        return tuple(chunks)
+    if kind == "custom":
+        return _Custom(chunks, True)
+    if kind == "custom-none":
+        return _Custom(chunks, False)
     from webob.static import FileIter
     data = b"".join(chunks)
     if kind == "file":
@@ -166,13 +192,81 @@ def make_app_iter(case):
 
 
 def build(case):
+    """-> (request, response, the WSGI app to call).  Besides the facts, a case says HOW they are supplied:
+    cond_via  kw | attr | subclass | cra (resp.conditional_response_app used as the app) | off
+    status_form text | int | code | status_code | ctor
+    hdr_via   list | attrs (ETag / Last-Modified / Content-Length re-assigned through the typed attributes)
+    req_via   headers | kw | attrs | environ
+    iter      list | tuple | gen | reiter | body | file | wrapper | custom | custom-none"""
+    from datetime import datetime
     from webob import Request, Response
-    req = Request.blank("/", method=case["method"], headers=request_headers(case))
-    resp = Response(conditional_response=True)
-    resp.app_iter = make_app_iter(case)
+    from webob.byterange import Range
+    cond = case.get("cond_via", "kw")
+    cls = Response
+    if cond == "subclass":
+        cls = type("CondResponse", (Response,), {"default_conditional_response": True})
+    kw = {"conditional_response": True} if cond == "kw" else {}
+    code = int(case["status"].split()[0])
+    form = case.get("status_form", "text")
+    if form == "ctor":
+        kw["status"] = case["status"]
+    resp = cls(**kw)
+    if cond == "attr":
+        resp.conditional_response = True
+    if case.get("iter") == "body":
+        resp.body = b"".join(bytes.fromhex(c) for c in case["chunks"])
+    else:
+        resp.app_iter = make_app_iter(case)
     resp.headerlist = response_headers(case)
-    resp.status = case["status"]
-    return req, resp
+    if form == "text":
+        resp.status = case["status"]
+    elif form == "int":
+        resp.status = code
+    elif form == "code":
+        resp.status = str(code)
+    elif form == "status_code":
+        resp.status_code = code
+    if case.get("hdr_via") == "attrs":
+        if case.get("etag") is not None:
+            resp.etag = (case["etag"][0], not case["etag"][1])
+        if case.get("lm") is not None:
+            resp.last_modified = case["lm"] if case["lm"] % 2 else datetime.utcfromtimestamp(case["lm"])
+        if case.get("clen", True) and case.get("clraw") is None:
+            resp.content_length = sum(len(bytes.fromhex(c)) for c in case["chunks"])
+    hs = request_headers(case)
+    hs.update(case.get("req_extra") or {})
+    via = case.get("req_via", "headers")
+    method = case["method"]
+    if via == "headers":
+        req = Request.blank("/", method=method, headers=hs)
+    elif via == "environ":
+        req = Request.blank("/", method=method)
+        for k, v in hs.items():
+            req.environ["HTTP_" + k.upper().replace("-", "_")] = v
+    else:
+        attrs = {k.lower().replace("-", "_"): v for k, v in hs.items()}
+        if "range" in attrs and attrs["range"]:
+            m = STRICT_RANGE.match(attrs["range"])
+            pick = zlib.crc32(attrs["range"].encode()) % 3
+            if m and pick and attrs["range"].startswith("bytes="):      # the same range as a tuple / Range object
+                if m.group(3) is not None:
+                    t = (-int(m.group(3)), None) if int(m.group(3)) else None
+                elif m.group(2) == "":
+                    t = (int(m.group(1)), None)
+                else:
+                    t = (int(m.group(1)), int(m.group(2)) + 1) if int(m.group(1)) <= int(m.group(2)) else None
+                if t is not None:
+                    attrs["range"] = t if pick == 1 else Range(*t)
+        if case.get("ims") is not None and case["ims"] % 2 == 0:
+            attrs["if_modified_since"] = datetime.utcfromtimestamp(case["ims"])
+        if via == "kw":
+            req = Request.blank("/", method=method, **attrs)
+        else:
+            req = Request.blank("/", method=method)
+            for k, v in attrs.items():
+                setattr(req, k, v)
+    app = resp.conditional_response_app if cond == "cra" else resp
+    return req, resp, app
 
 
 def with_block_size(case, f):
@@ -190,8 +284,8 @@ def with_block_size(case, f):
 def impl_call(case):
     """(status line, header list, body) as a WSGI server would see them (req.call_application)."""
     def go():
-        req, resp = build(case)
-        status, headers, app_iter = req.call_application(resp)
+        req, resp, app = build(case)
+        status, headers, app_iter = req.call_application(app)
         try:
             body = b"".join(app_iter)
         finally:
@@ -206,13 +300,42 @@ def impl_call(case):
 
 def impl_get_response(case):
     def go():
-        req, resp = build(case)
-        res = req.get_response(resp)
+        req, resp, app = build(case)
+        res = req.send(app) if case.get("call_via") == "send" else req.get_response(app)
         return [res.status, [[k, v] for k, v in res.headerlist], res.body]
     try:
         return with_block_size(case, go)
     except Exception as e:  # noqa
         return Err(type(e).__name__)
+
+
+def impl_wsgi(case):
+    """The application called directly with (environ, start_response), as a server does."""
+    def go():
+        req, resp, app = build(case)
+        seen = []
+
+        def start_response(status, headers, exc_info=None):
+            seen.append((status, headers))
+            return lambda data: None
+        it = app(req.environ, start_response)
+        try:
+            body = b"".join(it)
+        finally:
+            if hasattr(it, "close"):
+                it.close()
+        if len(seen) != 1:
+            return Err("start_response called %d times" % len(seen))
+        return [seen[0][0], [[k, v] for k, v in seen[0][1]], body]
+    try:
+        return with_block_size(case, go)
+    except Exception as e:  # noqa
+        return Err(type(e).__name__)
+
+
+def built_headers(case):
+    """The header list of the freshly built response (what 'the response's headers' are for this case)."""
+    return [list(h) for h in build(case)[1].headerlist]
 
 
 def ts_of(dt):
@@ -222,7 +345,7 @@ def ts_of(dt):
 def facts(case):
     """The facts the model takes, read through webob's own accessors (Coq literal of type cin)."""
     from webob.etag import AnyETag, NoETag, IfRangeDate
-    req, resp = build(case)
+    req, resp, _ = build(case)
     m = req.if_none_match
     if m is NoETag:
         inm = "InmAbsent"
@@ -243,6 +366,8 @@ def facts(case):
     data = b"".join(bytes.fromhex(c) for c in case["chunks"])
     if case.get("iter") == "file":
         app = "(AFile %s %s)" % (cstr(data), cnat(max(1, case.get("bs", 3))))
+    elif case.get("iter") == "custom-none":
+        app = "(ANoRange %s)" % clist(cstr(bytes.fromhex(c)) for c in case["chunks"])
     elif case.get("iter") == "wrapper":
         bs = max(1, case.get("bs", 3))
         app = "(AList %s)" % clist(cstr(data[i:i + bs]) for i in range(0, len(data), bs))
@@ -307,6 +432,8 @@ def ref_eval(case):
     """List of acceptable outcomes [(kind, detail)], first = the expected one.
     kind: "304" | "206" (first, last) | "416" | "full"."""
     method = case["method"]
+    if case.get("cond_via") == "off":              # conditional responses not enabled: nothing is conditional
+        return [("full", None)]
     safe = method in ("GET", "HEAD")
     etag, lm = case.get("etag"), case.get("lm")
     inm, ims = case.get("inm"), case.get("ims")
@@ -337,12 +464,20 @@ def ref_eval(case):
     if form is None or not applicable:
         return [("full", None)]
     sel = ref_select(form, L)
+    if sel is not None and case.get("iter") == "custom-none":
+        return [("full", None)]                     # the body object declines to serve ranges
     out = [("206", sel)] if sel is not None else [("416", None)]
     if sel is None and form == ("s", 0):
         out.append(("full", None))      # "-0": unsatisfiable, but not "starting at or beyond the end" either
     if not strict:
         out.append(("full", None))
     return out
+
+
+def expected_status(case):
+    if case.get("status_form", "text") in ("text", "ctor"):
+        return case["status"]
+    return STD_REASON[int(case["status"].split()[0])]
 
 
 def lower_in(k, names):
@@ -372,8 +507,8 @@ def check_outcome(case, want, got, base=None):
             return "304 headers %r, expected the response's other headers %r" % (headers, keep)
         return None
     if kind == "full":
-        if status != case["status"]:
-            return "expected the unmodified response (%s), got %s" % (case["status"], status)
+        if status != expected_status(case):
+            return "expected the unmodified response (%s), got %s" % (expected_status(case), status)
         if headers != base:
             return "full response but headers %r differ from the response's %r" % (headers, base)
         if body != (b"" if head else whole):
@@ -472,9 +607,18 @@ def oracle_case(case):
         return classify(case, wants, g, ""), "%s raised for %s (expected %s)" % (g.name, describe(case), wants[0][0])
     if raw != got:
         return "get_response-differs", "req.get_response shows %r but the application sent %r" % (got, raw)
+    if case.get("call_via") == "wsgi":
+        w = impl_wsgi(case)
+        if w != raw:
+            return "wsgi-call-differs", "called as app(environ, start_response): %r, through call_application: %r" % (w, raw)
+    base = None
+    if case.get("hdr_via") == "attrs" or case.get("iter") == "body":
+        base = built_headers(case)                  # same headers, possibly re-ordered by the typed setters
+        if sorted(base) != sorted([list(h) for h in response_headers(case)]):
+            return "setup:headers", "typed setters produced headers %r for %s" % (base, describe(case))
     msgs = []
     for w in wants:
-        m = check_outcome(case, w, got)
+        m = check_outcome(case, w, got, base)
         if m is None:
             return None
         msgs.append(m)
@@ -483,9 +627,11 @@ def oracle_case(case):
 
 def describe(case):
     hs = dict(request_headers(case))
-    return "%s %r on %s ETag=%r LM=%r CL=%s CR=%r body=%r iter=%s" % (
+    cfg = " ".join("%s=%s" % (k, case[k]) for k in ("cond_via", "status_form", "hdr_via", "req_via", "call_via", "clraw", "lmraw")
+                   if case.get(k) is not None)
+    return "%s %r on %s ETag=%r LM=%r CL=%s CR=%r body=%r iter=%s %s" % (
         case["method"], hs, case["status"], case.get("etag"), case.get("lm"), case.get("clen", True), case.get("cr"),
-        [c for c in case["chunks"]], case.get("iter", "list"))
+        [c for c in case["chunks"]], case.get("iter", "list"), cfg)
 
 
 def nontrivial(case):
@@ -598,6 +744,22 @@ def rand_case(rng, maxlen=10, iters=("list", "gen", "file", "wrapper")):
         case["ctname"] = rng.choice(["content-type", "CONTENT-TYPE"])
     if rng.random() < 0.15:
         case["clname"] = rng.choice(["content-length", "CONTENT-LENGTH"])
+    # how the same facts are supplied (configuration / argument shapes)
+    case["status"] = rng.choice(["200 OK"] * 4 + ["200 Okay", "200 ok", "200 Fine", "404 Not Found", "206 Partial Content",
+                                                   "201 Created"])
+    r = rng.random()
+    if r < 0.45:
+        case["status_form"] = rng.choice(["int", "code", "status_code"])
+        case["status"] = STD_REASON[int(case["status"].split()[0])]
+    elif r < 0.55:
+        case["status_form"] = "ctor"
+    case["cond_via"] = rng.choice(["kw", "kw", "attr", "subclass", "cra", "off"])
+    if rng.random() < 0.35 and "ctname" not in case and "clname" not in case:
+        case["hdr_via"] = "attrs"
+    case["req_via"] = rng.choice(["headers", "headers", "kw", "attrs", "environ"])
+    case["call_via"] = rng.choice(["get_response", "send", "wsgi"])
+    if case["iter"] == "list" and rng.random() < 0.5:
+        case["iter"] = rng.choice(["tuple", "body", "custom", "custom-none", "reiter"])
     return case
 
 
@@ -754,10 +916,10 @@ def oracle_history(hist):
     reference evaluator says), and the Response's own status / headerlist / body must be as before."""
     from webob import Request
     base, steps = hist["base"], hist["steps"]
-    if base.get("iter", "list") not in ("list", "reiter"):
+    if base.get("iter", "list") not in ("list", "reiter", "tuple", "body", "custom", "custom-none"):
         return "history:bad-case", "history needs a re-iterable body"
     try:
-        _, shared = build(merge(base, {}))
+        _, shared, shared_app = build(merge(base, {}))
         before = resp_state(shared)
     except Exception as e:  # noqa
         return "history:raises:" + type(e).__name__, "building the shared response raised %r" % (e,)
@@ -768,12 +930,12 @@ def oracle_history(hist):
             return r
         fresh = impl_get_response(case)
         try:
-            req = Request.blank("/", method=case["method"], headers=request_headers(case))
+            req = build(case)[0]
             if step.get("via") == "call_application":
-                st, hl, it = req.call_application(shared)
+                st, hl, it = req.call_application(shared_app)
                 got = [st, [[k, v] for k, v in hl], b"".join(it)]
             else:
-                res = req.get_response(shared)
+                res = req.get_response(shared_app)
                 got = [res.status, [[k, v] for k, v in res.headerlist], res.body]
             after = resp_state(shared)
         except Exception as e:  # noqa
@@ -901,6 +1063,123 @@ def gen_fileapp_histories(ctx):
                "steps": [dict(rng.choice(U)) for _ in range(rng.randrange(2, 9))]}
 
 
+# =========================================================================== outside the model's domain
+def gen_outside(ctx):
+    """Inputs the theorems exclude by hypothesis (untruthful / malformed Content-Length, text beyond latin-1, If-Range: *,
+    unparsable existing Content-Range, unparsable dates, lower-case methods): visited on the real code."""
+    body = ["6162", "63646566"]
+    for method in ("GET", "HEAD"):
+        for t in ("bytes=1-2", "bytes=4-", "bytes=-2", "bytes=9-", "bytes=2-50"):
+            for clraw in ("3", "60", "0", "-5", "abc", "", "6 ", "+6", "0x6", "6.0"):
+                yield {"method": method, "status": "200 OK", "chunks": body, "range": t, "clraw": clraw, "what": "content-length"}
+            yield {"method": method, "status": "200 OK", "chunks": body, "range": t, "cr": "garbage", "what": "content-range"}
+            yield {"method": method, "status": "200 OK", "chunks": body, "range": t, "etag": ["a", False], "ifr": ["raw", "*"],
+                   "what": "if-range-star"}
+            yield {"method": method, "status": "200 OK", "chunks": body, "range": t, "lmraw": "garbage", "ifr": ["date", T0],
+                   "what": "dates"}
+        for t in ("bytes=1-\u0663", "bytes=\u0661-", "bytes=-\uff12", "bytes=1\u2013 2", "bytes=1-2\u00a0", "\u212aytes=1-2",
+                  "byte\u017f=1-2", "bytes=1-2\x85", "bytes=\xb9-"):
+            yield {"method": method, "status": "200 OK", "chunks": body, "range": t, "req_via": "environ", "what": "range-text"}
+        for raw in ("garbage", "Sun, 06 Nov 1994 08:49:37", "0", "784111777", "Sun, 06 Nov 1994 08:49:37 +0100"):
+            yield {"method": method, "status": "200 OK", "chunks": body, "lm": T0, "req_extra": {"If-Modified-Since": raw},
+                   "what": "dates"}
+            yield {"method": method, "status": "200 OK", "chunks": body, "lmraw": raw, "ims": T0 + 5, "what": "dates"}
+    for m in ("get", "head", "Get"):
+        yield {"method": m, "status": "200 OK", "chunks": body, "range": "bytes=1-2", "inm": "*", "what": "method-case"}
+
+
+def oracle_outside(case):
+    """What remains meaningful outside the domain: no exception (ValueError allowed only for a negative Content-Length),
+    an answer that is one of 304 / 206 / 416 / unmodified, and a 206 whose payload is the slice its own Content-Range names."""
+    got = impl_call(case)               # raw WSGI view: Response.body of a lying Content-Length asserts in the observer
+    whole = b"".join(bytes.fromhex(c) for c in case["chunks"])
+    head = case["method"] == "HEAD"
+    clraw = case.get("clraw")
+
+    def numeric(t):
+        try:
+            int(t)
+            return True
+        except ValueError:
+            return False
+    if isinstance(got, Err):
+        if got.name == "ValueError" and clraw is not None and re.fullmatch(r"\s*-\d+\s*", clraw):
+            return None                 # application-supplied negative Content-Length: refused by ContentRange()
+        return "outside:raises:" + got.name, "%s raised for %s" % (got.name, describe(case))
+    status, headers, payload = got
+    code = status.split(" ", 1)[0]
+    base = built_headers(case)
+    hd = {}
+    for k, v in headers:
+        hd.setdefault(k.lower(), []).append(v)
+    if code == "206":
+        m = re.fullmatch(r"bytes (\d+)-(\d+)/(\d+)", (hd.get("content-range") or [""])[0])
+        if not m:
+            return "outside:206-content-range", "206 with Content-Range %r for %s" % (hd.get("content-range"), describe(case))
+        f, l = int(m.group(1)), int(m.group(2))
+        if payload != (b"" if head else whole[f:l + 1]) or hd.get("content-length") != [str(l - f + 1)] or f > l:
+            return "outside:206-payload", "206 %r with payload %r / Content-Length %r, body[%d:%d] is %r (%s)" % (
+                hd.get("content-range"), payload, hd.get("content-length"), f, l + 1, whole[f:l + 1], describe(case))
+        if clraw is not None and not numeric(clraw):
+            return "outside:206-unknown-length", "206 although Content-Length %r is no number (%s)" % (clraw, describe(case))
+        if case["method"] not in ("GET", "HEAD"):
+            return "outside:206-method", "206 for method %r" % case["method"]
+    elif code == "416":
+        if clraw is not None and not numeric(clraw):
+            return "outside:416-unknown-length", "416 although Content-Length %r is no number (%s)" % (clraw, describe(case))
+    elif code == "304":
+        if payload != b"" or case["method"] not in ("GET", "HEAD"):
+            return "outside:304", "304 with payload or for method %r (%s)" % (case["method"], describe(case))
+        if case.get("what") == "dates" and case.get("inm") is None:
+            lm_ok = case.get("lmraw") is None or parsable_date(case["lmraw"])
+            ims_raw = (case.get("req_extra") or {}).get("If-Modified-Since")
+            ims_ok = ims_raw is None or parsable_date(ims_raw)
+            if not (lm_ok and ims_ok):
+                return "outside:304-unparsable-date", "304 from a date that does not parse (%s)" % describe(case)
+    else:
+        if status != case["status"] or headers != base or payload != (b"" if head else whole):
+            return "outside:modified", "neither 304/206/416 nor the unmodified response: %r (%s)" % (got, describe(case))
+    return None
+
+
+def parsable_date(text):
+    from email.utils import parsedate_tz
+    return parsedate_tz(text) is not None
+
+
+def oracle_iter_shapes(rng):
+    """Argument shapes of the two iterator classes that conditional_response_app itself never uses."""
+    from webob.response import AppIterRange
+    from webob.static import FileIter
+    cs = rand_chunks(rng, 10)
+    whole = b"".join(cs)
+    start = rng.randrange(0, len(whole) + 2)
+    for name, it in (("list", list(cs)), ("tuple", tuple(cs)), ("gen", (c for c in cs)), ("reiter", _ReIter(cs))):
+        try:
+            got = b"".join(AppIterRange(it, start, None))
+        except Exception as e:  # noqa
+            return "air:raises", "AppIterRange(%s, %d, None) raised %r" % (name, start, e)
+        if got != whole[start:]:
+            return "air:open-stop", "AppIterRange(%s %r, %d, None) yields %r, expected %r" % (name, cs, start, got, whole[start:])
+    bs = rng.choice([1, 2, 3, 5, 64])
+    seek = rng.randrange(0, len(whole) + 2)
+    limit = rng.randrange(seek, len(whole) + 3)
+    shapes = [((), {}, whole), ((None, None, None), {}, whole), ((), {"block_size": bs}, whole),
+              ((seek,), {"block_size": bs}, whole[seek:]), ((), {"seek": seek, "limit": limit, "block_size": bs}, whole[seek:limit]),
+              ((None, limit, bs), {}, whole[:limit]), ((0, limit), {}, whole[:limit]), ((seek, None, bs), {}, whole[seek:])]
+    for args, kw, want in shapes:
+        try:
+            got = b"".join(FileIter(io.BytesIO(whole)).app_iter_range(*args, **kw))
+        except Exception as e:  # noqa
+            return "fileiter:raises", "FileIter.app_iter_range(*%r, **%r) raised %r" % (args, kw, e)
+        if got != want:
+            return "fileiter:shape", "FileIter(%r).app_iter_range(*%r, **%r) yields %r, expected %r" % (whole, args, kw, got, want)
+    f = FileIter(io.BytesIO(whole))
+    if b"".join(iter(f)) != whole:
+        return "fileiter:iter", "iter(FileIter) does not yield the file"
+    return None
+
+
 # =========================================================================== Coq literals
 def c_chunks(cs):
     return clist(cstr(c) for c in cs)
@@ -1004,6 +1283,9 @@ ORACLE_ONLY = [
     "webob.response:Response._abs_headerlist", "webob.response:Response.__call__", "webob.response:iter_close",
     "webob.request:BaseRequest.call_application", "webob.request:BaseRequest.send", "webob.static:FileApp",
     "webob.static:FileIter.__init__", "webob.static:BLOCK_SIZE",
+    # configuration / argument shapes varied by the generators
+    "webob.response:Response.__init__", "webob.response:Response._status__set", "webob.response:Response._status_code__set",
+    "webob.descriptors:serialize_range", "webob.descriptors:serialize_etag_response", "webob.descriptors:serialize_if_range",
 ]
 
 
@@ -1101,6 +1383,8 @@ def run(ctx):
     n_cond += len(pending)
     while len(lit) < n_cond:
         case = pending.pop() if pending else rand_case(rng, 9)
+        if case.get("cond_via") == "off":          # the model is of conditional_response_app
+            case = dict(case, cond_via="attr")
         out = impl_call(case)
         if isinstance(out, Err):
             r = oracle_case(case)
@@ -1157,6 +1441,23 @@ def run(ctx):
                             ctx.fail(r[0], r[1], {"kind": "fileapp", "size": size, "method": method, "range": t,
                                                   "wrapper": wrapper, "ims": d1, "ifr": d2}, True, "fileapp")
     ctx.oracle_count("fileapp", n, nt)
+
+    # (7b) outside the model's domain; argument shapes of AppIterRange / FileIter
+    n = 0
+    for case in gen_outside(ctx):
+        n += 1
+        r = oracle_outside(case)
+        if r:
+            ctx.fail(r[0], r[1], dict(case, kind="outside"), True, "outside-domain")
+    ctx.oracle_count("outside-domain", n, n)
+    rng = ctx.sub_rng("oracle-iter-shapes")
+    n = ctx.scale(300, 5000)
+    for k in range(n):
+        st_ = rng.getstate()
+        r = oracle_iter_shapes(rng)
+        if r:
+            ctx.fail(r[0], r[1], {"kind": "iter-shapes", "seed": ctx.seed, "index": k}, True, "iter-shapes")
+    ctx.oracle_count("iter-shapes", n, n)
 
     # (8) histories: ONE Response / ONE FileApp answering several different requests in sequence
     n = 0
@@ -1227,6 +1528,13 @@ def replay(ctx, path):
             size = case["size"]
             r = oracle_fileapp(tmp, bytes((7 * i + 3) % 256 for i in range(size)), case["method"], case["range"],
                                case["wrapper"], 4, case.get("ims"), case.get("ifr"))
+    elif kind == "outside":
+        r = oracle_outside(case)
+    elif kind == "iter-shapes":
+        rng = fw.Ctx("C06", "quick", case["seed"]).sub_rng("oracle-iter-shapes")
+        r = None
+        for _ in range(case["index"] + 1):
+            r = oracle_iter_shapes(rng)
     elif kind == "history":
         r = oracle_history(case)
     elif kind == "fileapp-history":
